@@ -50,24 +50,18 @@ theorem nextImpl_inject (p : Pump) (inp : List RawItem) (h : p.inject.length ≤
 
 
 mutual
-theorem erase_node (t : LNode) (haf : aliasFree t = true) (hq : noAnchoredEmptyQuoted t = true)
+theorem erase_node (t : LNode) (haf : aliasFree t = true)
     (σ σ' : Tab) (opn opn' : List Nat) (r r' : Exp)
     (h1 : expand σ opn t = .ok r) (h2 : expand σ' opn' (eraseAnchors t) = .ok r') :
     r'.evs = r.evs.map Ev.eraseAnchor := by
   match t with
   | .scalar v st a tag loc =>
-    simp only [noAnchoredEmptyQuoted] at hq
     simp only [eraseAnchors, expand, Except.ok.injEq] at h1 h2
     subst h1 h2
-    cases hcv : (v.isEmpty && a != 0 && (st == .single || st == .double)) with
-    | true => rw [hcv] at hq; cases hq
-    | false =>
-      simp only [List.map_cons, List.map_nil, scalarEv, Ev.eraseAnchor, normStyle, hcv]
-      simp
+    simp [scalarEv, Ev.eraseAnchor, normStyle]
   | .alias id loc => simp [aliasFree] at haf
   | .seq a tag loc eloc items =>
     simp only [aliasFree] at haf
-    simp only [noAnchoredEmptyQuoted] at hq
     simp only [eraseAnchors, expand] at h1 h2
     cases hL : expandL σ (if a != 0 then a :: opn else opn) items with
     | error e => rw [hL] at h1; simp at h1
@@ -75,14 +69,13 @@ theorem erase_node (t : LNode) (haf : aliasFree t = true) (hq : noAnchoredEmptyQ
       cases hL' : expandL σ' (if (0:Nat) != 0 then 0 :: opn' else opn') (eraseAnchorsL items) with
       | error e => rw [hL'] at h2; simp at h2
       | ok rL' =>
-        have ih := erase_nodes items haf hq _ _ _ _ _ _ hL hL'
+        have ih := erase_nodes items haf _ _ _ _ _ _ hL hL'
         rw [hL] at h1; simp only [Except.ok.injEq] at h1
         rw [hL'] at h2; simp only [Except.ok.injEq] at h2
         subst h1 h2
         simp [ih, Ev.eraseAnchor]
   | .map a tag loc eloc entries =>
     simp only [aliasFree] at haf
-    simp only [noAnchoredEmptyQuoted] at hq
     simp only [eraseAnchors, expand] at h1 h2
     cases hL : expandE σ (if a != 0 then a :: opn else opn) entries with
     | error e => rw [hL] at h1; simp at h1
@@ -90,12 +83,12 @@ theorem erase_node (t : LNode) (haf : aliasFree t = true) (hq : noAnchoredEmptyQ
       cases hL' : expandE σ' (if (0:Nat) != 0 then 0 :: opn' else opn') (eraseAnchorsE entries) with
       | error e => rw [hL'] at h2; simp at h2
       | ok rL' =>
-        have ih := erase_entries entries haf hq _ _ _ _ _ _ hL hL'
+        have ih := erase_entries entries haf _ _ _ _ _ _ hL hL'
         rw [hL] at h1; simp only [Except.ok.injEq] at h1
         rw [hL'] at h2; simp only [Except.ok.injEq] at h2
         subst h1 h2
         simp [ih, Ev.eraseAnchor]
-theorem erase_nodes (ts : List LNode) (haf : aliasFreeL ts = true) (hq : noAnchoredEmptyQuotedL ts = true)
+theorem erase_nodes (ts : List LNode) (haf : aliasFreeL ts = true)
     (σ σ' : Tab) (opn opn' : List Nat) (r r' : Exp)
     (h1 : expandL σ opn ts = .ok r) (h2 : expandL σ' opn' (eraseAnchorsL ts) = .ok r') :
     r'.evs = r.evs.map Ev.eraseAnchor := by
@@ -106,7 +99,6 @@ theorem erase_nodes (ts : List LNode) (haf : aliasFreeL ts = true) (hq : noAncho
     rfl
   | t :: ts =>
     simp only [aliasFreeL, Bool.and_eq_true] at haf
-    simp only [noAnchoredEmptyQuotedL, Bool.and_eq_true] at hq
     simp only [eraseAnchorsL, expandL] at h1 h2
     cases ha : expand σ opn t with
     | error e => rw [ha] at h1; simp at h1
@@ -122,14 +114,13 @@ theorem erase_nodes (ts : List LNode) (haf : aliasFreeL ts = true) (hq : noAncho
           cases hb' : expandL ra'.tab opn' (eraseAnchorsL ts) with
           | error e => rw [hb'] at h2; simp at h2
           | ok rb' =>
-            have ih1 := erase_node t haf.1 hq.1 _ _ _ _ _ _ ha ha'
-            have ih2 := erase_nodes ts haf.2 hq.2 _ _ _ _ _ _ hb hb'
+            have ih1 := erase_node t haf.1 _ _ _ _ _ _ ha ha'
+            have ih2 := erase_nodes ts haf.2 _ _ _ _ _ _ hb hb'
             rw [hb] at h1; simp only [Except.ok.injEq] at h1
             rw [hb'] at h2; simp only [Except.ok.injEq] at h2
             subst h1 h2
             simp [ih1, ih2]
 theorem erase_entries (es : List (LNode × LNode)) (haf : aliasFreeE es = true)
-    (hq : noAnchoredEmptyQuotedE es = true)
     (σ σ' : Tab) (opn opn' : List Nat) (r r' : Exp)
     (h1 : expandE σ opn es = .ok r) (h2 : expandE σ' opn' (eraseAnchorsE es) = .ok r') :
     r'.evs = r.evs.map Ev.eraseAnchor := by
@@ -140,7 +131,6 @@ theorem erase_entries (es : List (LNode × LNode)) (haf : aliasFreeE es = true)
     rfl
   | (k, v) :: es =>
     simp only [aliasFreeE, Bool.and_eq_true] at haf
-    simp only [noAnchoredEmptyQuotedE, Bool.and_eq_true] at hq
     simp only [eraseAnchorsE, expandE] at h1 h2
     cases ha : expand σ opn k with
     | error e => rw [ha] at h1; simp at h1
@@ -164,9 +154,9 @@ theorem erase_entries (es : List (LNode × LNode)) (haf : aliasFreeE es = true)
               cases hc' : expandE rb'.tab opn' (eraseAnchorsE es) with
               | error e => rw [hc'] at h2; simp at h2
               | ok rc' =>
-                have ih1 := erase_node k haf.1.1 hq.1.1 _ _ _ _ _ _ ha ha'
-                have ih2 := erase_node v haf.1.2 hq.1.2 _ _ _ _ _ _ hb hb'
-                have ih3 := erase_entries es haf.2 hq.2 _ _ _ _ _ _ hc hc'
+                have ih1 := erase_node k haf.1.1 _ _ _ _ _ _ ha ha'
+                have ih2 := erase_node v haf.1.2 _ _ _ _ _ _ hb hb'
+                have ih3 := erase_entries es haf.2 _ _ _ _ _ _ hc hc'
                 rw [hc] at h1; simp only [Except.ok.injEq] at h1
                 rw [hc'] at h2; simp only [Except.ok.injEq] at h2
                 subst h1 h2
